@@ -225,7 +225,7 @@ impl Topo {
             let now = self.now();
             if self.hold > 0 {
                 for node in self.nodes.iter_mut() {
-                    if node.spk.established() && now >= node.last_ka_ms + self.hold * 1000 / 3 {
+                    if node.spk.established() && !node.spk.mute && now >= node.last_ka_ms + self.hold * 1000 / 3 {
                         node.spk.send_keepalive();
                         node.last_ka_ms = now;
                     }
